@@ -22,8 +22,8 @@ import Tickit.Model.RBFlush
     reorder (the model would be wrong about the window order otherwise).
 
   The operations of `Life.Op` keep their meaning (`Life.step`); this layer adds operations and keeps the state they
-  need next to the `St` of the lower layers.  No theorem of Props/C08 is about this layer: it is tied to the code by
-  the correspondence check only.
+  need next to the `St` of the lower layers.  The theorems about this layer are `sigwinch_list_safe`, `top_no_ub`,
+  `top_lifetime_inv` and `top_all_released` (Props/C08.lean; Proof/LifeSigwinch.lean, LifeTop.lean, LifeTopEnd.lean).
 -/
 namespace Tickit
 namespace Life
@@ -63,14 +63,14 @@ inductive Tok where
 deriving Repr, Inhabited
 
 /-- Configuration of this layer: the repairs of the lower layers, and whether `tickit_destroy` makes a root window
-    that outlives the instance forget it (fixes/C08_rootwin_outlives_tickit.patch). -/
+    that outlives the instance forget it (repair 6812027). -/
 structure TCfg where
   base : Cfg
   rootForgetsTickit : Bool := false
   /-- `tickit_term_observe_sigwinch` resets `tt->next_sigwinch_observer` of the terminal it unlinks
-      (fixes/C08_sigwinch_stale_next.patch) -/
+      (repair a2a7841) -/
   sigwinchClearsNext : Bool := false
-  /-- `tickit_term_set_input_fd` forgets the TermKey it destroys (fixes/C08_set_input_fd_termkey.patch) -/
+  /-- `tickit_term_set_input_fd` forgets the TermKey it destroys (repair f040fc7) -/
   setInputFdClearsTermkey : Bool := false
 deriving Repr, Inhabited
 
